@@ -186,6 +186,26 @@ def replay(ctx, lines, out, warn, style_idx, pid='C10'):
     if nskip != warn:
         ctx.violation(f'{pid}|warnings|{line_sig(lines)[:60]}', f'{nskip} skip warning(s), expected {warn}', case)
         return True
+    if pid == 'C10' and style_idx % 3 == 1 and regs:
+        # what a parse returns belongs to the caller, who may edit it (append to a tag list, change a colour): reading the same text again
+        # still gives what the text says
+        for r in regs:
+            if isinstance(r.meta.get('tag'), list):
+                r.meta['tag'].append('edited by the caller')
+            r.meta['text'] = 'edited'
+            r.visual['color'] = 'magenta'
+            r.visual['edgecolor'] = 'magenta'
+        try:
+            again, _ = parse_real(text)
+        except Exception as ex:  # noqa
+            ctx.violation(f'{pid}|reparse|raises|{type(ex).__name__}', f'parsing the same text again raised {ex!r}', case)
+            return True
+        for j, (m, r) in enumerate(zip(out, again)):
+            bad = ds9text.compare(m, r)
+            if bad or len(again) != len(out):
+                ctx.violation(f"{pid}|reparse|{(bad or ['count'])[0]}|{m['cls']}", f'the same text parsed again after the caller edited the regions of the first parse: region {j}: {(bad or [0, len(again)])[1]}',
+                              dict(case, region_index=j, model=m))
+                return True
     return False
 
 
